@@ -45,6 +45,22 @@ def build(sc):
     return o
 
 
+RC = [0, 0]      # window (rows, columns) over which 2-D freeform coefficients are compared (set per scenario)
+
+
+def c2_window(g):
+    """coefficients c[a][b] of a polynomial / Chebyshev geometry over the RC window, zero where nothing is stored
+    (zero padding of the stored array is not a change of the prescription)"""
+    if type(g).__name__ not in ('PolynomialGeometry', 'ChebyshevPolynomialGeometry'):
+        return []
+    c = np.atleast_2d(np.array(g.c, dtype=float))
+    w = np.zeros((RC[0], RC[1]))
+    a, b = min(RC[0], c.shape[0]), min(RC[1], c.shape[1])
+    w[:a, :b] = c[:a, :b]
+    extra = float(np.abs(c[a:, :]).sum() + np.abs(c[:a, b:]).sum())   # non-zero entries outside the window
+    return [float(x) for x in w.ravel()] + [extra]
+
+
 def snapshot(o, WS, glass_ids):
     out = []
     for s in o.surface_group.surfaces:
@@ -63,7 +79,7 @@ def snapshot(o, WS, glass_ids):
         cf = [float(c) for c in g.c] if name == 'EvenAsphere' else []
         out.append({'kind': kind, 'rad': f(getattr(g, 'radius', np.inf)), 'con': f(getattr(g, 'k', 0.0)),
                     'z': f(cs.z), 'dx': f(cs.x), 'dy': f(cs.y), 'rx': f(cs.rx), 'ry': f(cs.ry), 'cf': cf,
-                    'med': med, 'nws': [f(m.n(w)) for w in WS]})
+                    'med': med, 'nws': [f(m.n(w)) for w in WS], 'c2': c2_window(g)})
     return out
 
 
@@ -96,6 +112,9 @@ def snap_diff(a, b, tol=1e-9):
             d.append([i, 'cf'])
         if x['med'][0] != y['med'][0] or any(not close(p, q, tol) for p, q in zip(x['nws'], y['nws'])):
             d.append([i, 'med'])
+        if len(x.get('c2', [])) != len(y.get('c2', [])) or any(abs(p - q) > tol * (1e-6 + abs(p) + abs(q))
+                                                                for p, q in zip(x.get('c2', []), y.get('c2', []))):
+            d.append([i, 'c2'])
     return d
 
 
@@ -145,6 +164,14 @@ def raw_set(o, h, v):
         o.set_index(v, i)
     elif t == 'asphere_coeff':
         o.set_asphere_coeff(v, i, kw['coeff_number'])
+    elif t in ('polynomial_coeff', 'chebyshev_coeff'):
+        g = o.surface_group.surfaces[i].geometry
+        a, b = kw['coeff_index']
+        c = np.atleast_2d(np.array(g.c, dtype=float))
+        w = np.zeros((max(a + 1, c.shape[0]), max(b + 1, c.shape[1])))
+        w[:c.shape[0], :c.shape[1]] = c          # every stored coefficient keeps its (row, column)
+        w[a, b] = v
+        g.c = w
     elif t == 'tilt':
         setattr(o.surface_group.surfaces[i].geometry.cs, 'r' + kw['axis'], v)
     elif t == 'decenter':
@@ -181,6 +208,35 @@ def bounded_reference(sc, which, values, targets):
         return {'x': float(r.x), 'merit': m, 'ops': [f(op.value) for op in ops], 'lo': lo, 'hi': hi}
 
 
+def sag_deviation(o, sc):
+    """max |sag(optiland geometry) - sag(prescribed coefficients of the scenario)| over sample points, for every
+    freeform / aspheric surface (independent evaluation: tools/oracles.py)"""
+    import oracles
+    worst = 0.0
+    pts = [(0.0, 0.0), (1.3, -0.7), (-2.1, 1.9), (2.6, 2.2), (-1.1, -2.9), (3.0, 0.4)]
+    for i, sp in enumerate(sc['lens']['surfaces']):
+        ty = sp.get('type', 'standard')
+        if ty not in ('polynomial', 'chebyshev', 'even_asphere'):
+            continue
+        R, k = sp['radius'], sp.get('conic', 0.0)
+        if ty == 'polynomial':
+            sh = ('poly', R, k, sp['coefficients'], 0, 0)
+        elif ty == 'chebyshev':
+            sh = ('cheb', R, k, sp['coefficients'], 0, 0, sp['norm_x'], sp['norm_y'])
+        else:
+            sh = ('even', R, k, sp['coefficients'])
+        g = o.surface_group.surfaces[i + 1].geometry
+        for (x, y) in pts:
+            z0 = oracles.sag_and_grad(sh, x, y)[0]
+            z1 = f(g.sag(np.array([x]), np.array([y])))
+            if z0 != z0 or z1 != z1:
+                if (z0 != z0) != (z1 != z1):
+                    worst = float('inf')
+                continue
+            worst = max(worst, abs(z0 - z1))
+    return worst
+
+
 def mk_sampler(sp):
     k = sp[0]
     if k == 'scalar':
@@ -206,10 +262,18 @@ def add_operands(t_or_list, sc, o, targets=None):
     return ops
 
 
-def setup(sc):
+def setup(sc, info=None):
+    RC[0], RC[1] = sc.get('c2shape', [0, 0])
     o = build(sc)
     t = Tolerancing(o, method=sc.get('method', 'generic'), tol=sc.get('tol', 1e-5))
     add_operands(t, sc, o)
+    if info is not None:
+        # the nominal lens: before any perturbation / compensator is registered
+        info['glass'] = {}
+        info['built'] = snapshot(o, sc['WS'], info['glass'])
+        info['ops_built'] = [f(v) for v in t.evaluate()]
+        info['sag_built'] = sag_deviation(o, sc)
+        info['optic'] = o
     samplers = [mk_sampler(p['sampler']) for p in sc['perts']]
     for (a, b) in sc.get('share', []):
         samplers[b] = samplers[a]          # ONE sampler object used by two perturbations
@@ -247,10 +311,26 @@ def plan_which(sc):
 def run_analysis(sc, observe=True):
     """returns dict with everything observed on the real implementation"""
     res = {}
-    o, t = setup(sc)
+    info = {}
+    try:
+        o, t = setup(sc, info)
+    except Exception as e:   # noqa
+        if sc.get('expect_setup_error') and 'optic' in info:
+            # registering the perturbation raised: the lens must be untouched
+            o = info['optic']
+            res['setup_error'] = type(e).__name__
+            res['setup_error_diff'] = snap_diff(info['built'], snapshot(o, sc['WS'], info['glass']))
+            res['sag_after_setup'] = sag_deviation(o, sc)
+            return res
+        raise
     WS = sc['WS']
-    gl = {}
-    res['nominal'] = snapshot(o, WS, gl)
+    gl = info['glass']
+    res['nominal'] = info['built']
+    res['ops_built'] = info['ops_built']
+    res['sag_built'] = info['sag_built']
+    res['after_setup'] = snapshot(o, WS, gl)
+    res['setup_diff'] = snap_diff(res['nominal'], res['after_setup'])
+    res['sag_after_setup'] = sag_deviation(o, sc)
     d_nom = dict_of(o)
     res['ops_nominal'] = [f(v) for v in t.evaluate()]
     res['targets'] = [f(op.target) for op in t.operands]
@@ -334,11 +414,13 @@ def run_analysis(sc, observe=True):
             optmod.OptimizerGeneric._apply_solution = orig_apply
     res['steps'] = steps
     res['after_run'] = snapshot(o, WS, gl)
+    res['sag_after_run'] = sag_deviation(o, sc)
     res['dict_diff_run'] = [x for stp in steps for x in stp.get('dict_diff_run', [])]
     res['diff_run_steps'] = [x for stp in steps for x in stp.get('diff_run', [])]
     with quiet():
         t.reset()
     res['after_reset'] = snapshot(o, WS, gl)
+    res['sag_after_reset'] = sag_deviation(o, sc)
     res['dict_diff_reset'] = dict_diff(d_nom, dict_of(o))
     res['to_dict_ok'] = '__to_dict_error__' not in d_nom
     for tr in trials:
@@ -377,8 +459,7 @@ def fresh_eval(sc, which, values, targets, variant=()):
     ops = add_operands(None, sc, o, targets)
     with quiet():
         for j, v in zip(which, values):
-            p = sc['perts'][j]
-            Variable(o, p['type'], apply_scaling=False, **p['kw']).update(v)
+            raw_set(o, sc['perts'][j], v)        # Optic.set_* / direct writes: no Variable object for the perturbations
         if sc['comps']:
             co = CompensatorOptimizer(method=sc.get('method', 'generic'), tol=sc.get('tol', 1e-5))
             for c in sc['comps']:
@@ -427,6 +508,9 @@ for sc in job['scenarios']:
     try:
         res = run_analysis(sc)
         r.update(res)
+        if 'setup_error' in res:
+            out.append(r)
+            continue
         tol = 1e-6 if sc['comps'] else 1e-9
         orc = []
         for tr in res['trials']:
@@ -438,7 +522,7 @@ for sc in job['scenarios']:
             if ok and not sc['comps']:
                 # tiny perturbations: the recorded value must follow the replayed one to within 2% of the EFFECT of the
                 # perturbation on that operand, whenever that effect is far above rounding (1e4 ulp)
-                for a, b, n0 in zip(fr, tr['row_ops'], res['ops_nominal']):
+                for a, b, n0 in zip(fr, tr['row_ops'], res['ops_built']):
                     if a != a or b != b or n0 != n0 or math.isinf(a) or math.isinf(n0):
                         continue
                     eff = abs(a - n0)
